@@ -140,8 +140,8 @@ def sym_fault(inp, part):
     schema = _schema(part["version"])
     pos = part["pos"]
     n = inp.int("n", part["olo"], part["ohi"])
-    c = inp.int("c", part["olo"], part["ohi"])
-    cmd = inp.pick("cmd", 3)  # presentation / set / req address an ordinary child
+    cmd = inp.pick("cmd", 4)  # presentation / set / req address an ordinary child, internal the system child
+    c = inp.int("c", part["olo"], part["ohi"]) if cmd != 3 else 255
     ack = inp.int("ack", 0, 1)
     t = inp.int("t", 0, 9)
     vals = [n, c, cmd, ack, t]
